@@ -390,7 +390,7 @@ def main(tier):
     rep = Report("C19", tier, "model_checking")
     quick = tier == "quick"
     variant = "ossl-asan" if quick else "ossl-plain"
-    deadline = time.time() + (170 if quick else 1700)
+    deadline = time.time() + (600 if quick else 1700)
     kw = dict(full_seq_max=3, triples=False) if quick else dict(full_seq_max=4, triples=True)
     depth = 2 if quick else 3
     ex = Explorer(C19(**kw), variant=variant, deadline=deadline)
